@@ -312,6 +312,15 @@ def ob_formula(fname, d, field, r1, r2):
             M = rng.integers(-4, 5, size=(d, d)) / 4.0 + 1j * rng.integers(-4, 5, size=(d, d)) / 4.0 + 2 * np.eye(d)
             mixed_ = (M @ M.conj().T) / np.trace(M @ M.conj().T).real
             out += [{"rho": pure, "sigma": mixed_}, {"rho": mixed_, "sigma": pure}]
+        if d >= 3 and min(r1, r2) >= 2:
+            # a dense state with a REPEATED non-zero eigenvalue (Fourier basis times diag(.4, .4, .2, 0..)): eigen-solvers for general
+            # matrices return non-orthogonal vectors inside the degenerate eigenspace
+            Fm = np.array([[np.exp(2j * np.pi * a * c_ / d) for c_ in range(d)] for a in range(d)]) / np.sqrt(d)
+            lam = np.array(([0.4, 0.4, 0.2] + [0.0] * d)[:d])
+            deg = Fm @ np.diag(lam / lam.sum()) @ Fm.conj().T
+            M2 = rng.integers(-4, 5, size=(d, d)) / 4.0 + 1j * rng.integers(-4, 5, size=(d, d)) / 4.0 + 2 * np.eye(d)
+            gen = (M2 @ M2.conj().T) / np.trace(M2 @ M2.conj().T).real
+            out += [{"rho": deg, "sigma": gen}, {"rho": gen, "sigma": deg}]
         return out
     return Obligation(f"{fname}.equals_documented_formula", cfg, build, call, oracle, assume=psd_kernel_assume,
                       valid=valid_density_pair, witness=witness,
